@@ -261,6 +261,9 @@ macro_rules! tracked_type {
         impl Clone for $name {
             fn clone(&self) -> Self {
                 clone_tick();
+                if let Err(e) = check_live(self.id, self.magic, $s) {
+                    finding(format!("clone-of-invalid-source: {}", e));
+                }
                 let id = fresh_id(self.id);
                 $name { id, magic: id ^ K, tag: self.tag }
             }
@@ -492,6 +495,9 @@ impl Drop for T1 {
 impl Clone for T1 {
     fn clone(&self) -> Self {
         clone_tick();
+        if let Err(e) = self.check() {
+            finding(format!("clone-of-invalid-source: {}", e));
+        }
         T1::build(fresh_id(self.id()), self.tag())
     }
 }
